@@ -320,6 +320,8 @@ func TestC20(t *testing.T) {
 				}
 				all.Includes = append(all.Includes, all.Includes[0])
 				hc.Ops = append(hc.Ops, all)
+				// and the whole cluster without naming anything: no pod, no include list
+				hc.Ops = append(hc.Ops, sim.Op{Kind: "capacity", App: "app", Entry: "web", Pod: "", Strategy: "DUMMY", Res: sim.Res{CPU: 0.1, Memory: 1 << 20}, Count: 1})
 			}
 		}
 		run(hc)
